@@ -196,6 +196,7 @@ func (c *bsigCtx) verifyEvent(b *bundle.Bundle, sec int64, ns int, signed []map[
 // bsig-run <tier>: C06. Sign / write-read / verify histories with 1..k signers and tampering.
 func bsigRun(args []string) error {
 	thorough := len(args) > 0 && args[0] == "thorough"
+	dstOnly := len(args) > 0 && args[0] == "dst" // run by the check under TZ=America/New_York and TZ=Europe/Berlin
 	r := rand.New(rand.NewSource(seed()))
 	hostA, hostB := "a.example", "b.example"
 	s1 := &bsigner{"s1", []*keyCert{newKeyCert("p256", []string{hostA}, 0)}, map[string]bool{hostA: true}}
@@ -213,12 +214,28 @@ func bsigRun(args []string) error {
 	week := int64(7 * 24 * 3600)
 	for _, ver := range []bversion.Version{bversion.VersionB1, bversion.VersionB2} {
 		for si, seq := range seqs {
-			for _, dur := range []int64{3600, week, week + 1, 1} {
-				if dur != 3600 && si > 3 && !thorough {
+			// durations; negative entries select fixed (date, duration) pairs next to daylight-saving transitions of
+			// America/New_York and Europe/Berlin (the cap is 604800 SECONDS in whatever zone the process runs)
+			durs := []int64{3600, week, week + 1, 1}
+			dstPairs := [][2]int64{{1520251200, week}, {1520251200, week - 1}, {1540900800, week + 1}, {1540900800, week + 3599}, {1540900800, week},
+				{1521633600, week}, {1540296000, week + 1800}}
+			if dstOnly {
+				durs = nil
+				if si == 0 || si == 3 {
+					for k := range dstPairs {
+						durs = append(durs, int64(-1-k))
+					}
+				}
+			}
+			for _, dur := range durs {
+				if dur != 3600 && si > 3 && !thorough && !dstOnly {
 					continue
 				}
 				rs := []int{1, 16, 4096}[r.Intn(3)]
 				date := int64(1000000000 + r.Intn(1000000000))
+				if dur < 0 {
+					date, dur = dstPairs[-1-dur][0], dstPairs[-1-dur][1]
+				}
 				b := &bundle.Bundle{Version: ver}
 				pu, _ := url.Parse("https://a.example/x")
 				b.PrimaryURL = pu
